@@ -52,6 +52,9 @@ CHECKS = {
     "C11": ("exploration", E1 + " (option cross products on constant-phase and ladder spectra; analytic modulus as oracle)",
             "Constant-phase spectra x 5 smoothers x 4 interpolators x {Z, Y}, (num_points, polynomial_order) pairs, custom weights x frequency grids, named windows x centres x widths and the default call, ladders, scaling by 2^10 and 1e-3, modification of zero-weight moduli, every smoothing filter on exactly constant/linear phase, and the window generator for 13 windows x 9 placements; oracles are the analytic modulus (2e-4), a frozen 15 % band for ladders, equivariance, and filter exactness (1e-10).",
             "Spectra are a declared finite set; bands were calibrated once on the unchanged tree and frozen.", "DESIGN.md section 4, C11"),
+    "C08": ("exploration", E1 + " (entry points x options x mask subsets x masked payloads x input order; differential masked-vs-removed oracle)",
+            "About 50 (110) configured entry points - KK tests, evaluate_log_F_ext, exploratory KK, Z-HIT incl. the offset-shift case, four DRT methods and circuit fits - x every mask subset of size <= 2 over four probe positions x garbage payloads at the masked points x ascending/descending input: result frequencies, residual definition, pseudo chi-squared, attached circuit, untouched inputs, and bit-identical result versus the data set with the masked points physically removed.",
+            "All option combinations are carried by one noisy 25-point mock spectrum (plus one with negative Re Y); BHT is run with a fixed numpy seed on both legs.", "DESIGN.md section 4, C08"),
 }
 
 NOT_YET = "check not built yet in this round (planned, see DESIGN.md section 4)"
